@@ -1,6 +1,7 @@
 package main
 
 import (
+	"crypto/sha256"
 	"encoding/json"
 	"fmt"
 	"os"
@@ -256,7 +257,9 @@ func init() {
 		if tier == "thorough" {
 			fams = []famRun{famRunOf("RegDep", "large"), famRunOf("MemDep", "large"), famRunOf("Tail", "large"), famRunOf("Shadow", "large"), famRunOf("Repo", "large"), generalRuns()[1]}
 		}
+		fams = append(fams, famRunOf("Oob", "small"))
 		detRun(r, fams)
+		rigDeterminism(r)
 	})
 }
 
@@ -315,6 +318,57 @@ func runFamilyAll(r *Reporter, prop string, runs []famRun, configs func(c *ProgC
 			inconclusive("%s generated no case", fr.Module)
 		}
 	}
+}
+
+// rigDeterminism: the cache controllers of the multi-core variants driven by the verif rig (the schedules
+// of C06: triples on three cores, the eviction warm-ups, sharers with a busy snoop coroutine, one core
+// asked for two Modified lines at once) are run three times each; the sequence of distinct snapshots, the
+// cycle in which the rig becomes quiet and the outcome must be identical (several same-cycle snoop
+// requests are served in a map-iteration order).
+func rigDeterminism(r *Reporter) {
+	n := 0
+	for _, variant := range []string{"mvp7-0", "mvp7-1", "mvp8-0"} {
+		var scheds []rigSchedule
+		for _, s := range rigSchedules(variant) {
+			if s.Cores >= 3 || len(s.Events) >= 17 {
+				scheds = append(scheds, s)
+			}
+		}
+		ch := make(chan int, 64)
+		go func() {
+			for i := range scheds {
+				ch <- i
+			}
+			close(ch)
+		}()
+		parallel(ch, 16, func(i int) {
+			s := scheds[i]
+			var keys [3]string
+			for k := range keys {
+				snaps, pm, stuck, end := runScheduleT(s)
+				h := sha256.New()
+				for _, sn := range snaps {
+					h.Write(sn)
+					h.Write([]byte{10})
+				}
+				keys[k] = fmt.Sprintf("end=%d distinct_snapshots=%d panic=%q stuck=%v state=%x", end, len(snaps), pm, stuck, h.Sum(nil)[:8])
+			}
+			r.Eval("rigdet|"+hashKey(s.String()), true)
+			r.addTraces(3)
+			if keys[0] != keys[1] || keys[0] != keys[2] {
+				desc := fmt.Sprintf("rig %s: three runs of one request schedule differ: %s | %s | %s", s.String(), keys[0], keys[1], keys[2])
+				cfg := Config{Variant: s.Variant, Par: s.Cores}
+				if id := matchFinding("C08", append([]string{"det:rig"}, s.Tags...), &cfg, "rig"); id != "" {
+					r.Known(id, desc)
+					return
+				}
+				ss := s
+				r.ViolateMin("rigdet|"+s.Variant, len(s.Events)*1000+s.Events[len(s.Events)-1].T, desc, func() any { return ss })
+			}
+		})
+		n += len(scheds)
+	}
+	r.Cov["rig_schedules_run_three_times"] = n
 }
 
 type detKey struct {
